@@ -265,6 +265,12 @@ def native_accepts(run, w):
         except Exception: pass
     return verdict, ' '.join(args[1:])[-200:] + ' -> ' + ('serves' if verdict else 'refuses: ' + out.decode('utf-8', 'replace')[-160:] if verdict is False else 'unknown')
 
+def native_replay(run, rp):
+    w = rp['witness']
+    got, text = native_accepts(run, w)
+    if got is None: return None, text
+    return (got != w['rule']), text
+
 def confirm(run, cands):
     for f in cands:
         fi = Finding(PROP, f['kind'], f['site'], f['what'], f['witness'], role=dict(predicate=f.get('predicate', '')))
@@ -279,6 +285,7 @@ def confirm(run, cands):
                 fi.confirmed = (got != w['rule']) and (got == w['accepted_by_model'])
                 if fi.confirmed: run.native_replays += 1
             fi.native = text
+            fi.replay = dict(kind='config', witness=w)
         else:
             fi.confirmed = None; fi.native = 'no native replay for this configuration finding'
         run.add_finding(fi)
